@@ -142,13 +142,23 @@ def maxList : List Nat → Option Nat
   | [] => none
   | a :: as => some (as.foldl max a)
 
-/-- note events of one kind for track `tr`: key-major in the order the keys entered the dict -/
-def kindEvents (recs : List NoteOut) (tcOf : Key → Option (Nat × Nat)) (tr : Nat)
-    (emit : NoteOut → Nat → List (Int × Msg)) : List (Int × Msg) :=
+/-- the notes of `recs` that go to track `tr`, key after key in the order the keys entered the dict
+    (`note_offs` / `zero_dur_notes` / `events` are dicts keyed by (group, part, voice)), with their channel -/
+def keyMajor (recs : List NoteOut) (tcOf : Key → Option (Nat × Nat)) (tr vel : Nat) : List NoteRec :=
   (firstSeen (recs.map (·.key))).flatMap fun k =>
     match tcOf k with
     | none => []
-    | some (t, ch) => if t = tr then (recs.filter (fun r => r.key = k)).flatMap (fun r => emit r ch) else []
+    | some (t, ch) =>
+      if t = tr then (recs.filter (fun r => r.key = k)).map (fun r => (⟨r.on, r.off, ch, r.pitch, vel⟩ : NoteRec)) else []
+
+/-- the notes of track `tr` in the order their events are merged into the track: the notes of positive
+    duration key-major, then the zero-duration notes key-major -/
+def trackNotes (recs : List NoteOut) (tcOf : Key → Option (Nat × Nat)) (tr vel : Nat) : List NoteRec :=
+  keyMajor (recs.filter fun r => r.on ≠ r.off) tcOf tr vel ++ keyMajor (recs.filter fun r => r.on = r.off) tcOf tr vel
+
+/-- the content of a track: its tempo and signature events and the note events of its notes -/
+def trackEvents (tempos metas : List (Int × Msg)) (notes : List NoteRec) : TrackEvents :=
+  { noteEvents notes with tempos := tempos, metas := metas }
 
 /-- `save_score_midi(parts, part_voice_assign_mode=mode, velocity=vel, anacrusis_behavior=a,
     minimum_ppq=minPpq)`; `none`: the code raises -/
@@ -169,18 +179,13 @@ def saveScoreMidi (mode : Nat) (a : Anacrusis) (minPpq vel : Nat) (parts : List 
   let tcs ← mapToTrackChannel mode keys
   let tcOf (k : Key) : Option (Nat × Nat) := lookup k (keys.zip tcs)
   let nTracks ← (maxList (tcs.map (·.1))).map (· + 1)
-  let pos := recs.filter fun r => r.on ≠ r.off
-  let zer := recs.filter fun r => r.on = r.off
   let tracksOfPart (i : Nat) : List Nat := (keys.zip tcs).filterMap fun e => if e.1.2.1 = i then some e.2.1 else none
   let tracks := (List.range nTracks).map fun tr =>
-    let te : TrackEvents :=
-      { tempos := if tr = 0 then tempos.map (fun e => (e.1, Msg.tempo e.2)) else [],
-        -- `events[tr][t] = me + events[tr][t]` part after part: the last part's events come first
-        metas := (metas.reverse).flatMap (fun e => if (tracksOfPart e.1).contains tr then e.2 else []),
-        offs := kindEvents pos tcOf tr (fun r ch => [(r.off, .noteOff ch r.pitch 64)]),
-        zeros := kindEvents zer tcOf tr (fun r ch => [(r.on, .noteOn ch r.pitch vel), (r.off, .noteOff ch r.pitch 64)]),
-        ons := kindEvents pos tcOf tr (fun r ch => [(r.on, .noteOn ch r.pitch vel)]) }
-    trackOrder te
+    trackOrder (trackEvents
+      (if tr = 0 then tempos.map (fun e => (e.1, Msg.tempo e.2)) else [])
+      -- `events[tr][t] = me + events[tr][t]` part after part: the last part's events come first
+      ((metas.reverse).flatMap (fun e => if (tracksOfPart e.1).contains tr then e.2 else []))
+      (trackNotes recs tcOf tr vel))
   -- a negative delta time cannot be written
   if tracks.any (fun t => match t with | [] => false | e :: _ => e.1 < 0) then none
   else pure ⟨p, tracks⟩
